@@ -2,6 +2,7 @@
 // "sources"): object-lifetime observation of unbounded_array / igris::ring / cyclic_buffer with a
 // ledger type and a counting allocator (`lifeprobe`, `lifecount` ops).
 #include "common/hv.h"
+#include "C03_acc.h"
 #include <deque>
 #include <memory>
 #include <map>
@@ -22,7 +23,7 @@ struct Ledger
     std::set<const void *> live;
     std::set<void *> blocks;
     long allocs = 0;
-    long over_live = 0, dead_dtor = 0, dead_read = 0;
+    long over_live = 0, dead_dtor = 0, dead_read = 0, dead_assign = 0;
     long ctor = 0, dtor = 0;                 // constructor / destructor calls on slots of allocated arrays
     std::map<const char *, size_t> ranges;   // arrays handed out by the counting allocator
     bool in_array(const void *p) const
@@ -36,6 +37,7 @@ struct Ledger
     void err(const std::string &e) { if (errs.size() < 4) errs.push_back(e); }
 };
 static Ledger LG;
+static bool THROW_NEXT_COPY = false; // the next Tracked copy constructor throws (before an object exists)
 struct Tracked
 {
     int v;
@@ -46,10 +48,15 @@ struct Tracked
     }
     Tracked() : v(0) { born(); }
     Tracked(int x) : v(x) { born(); }
-    Tracked(const Tracked &o) : v(o.v) { if (!LG.live.count(&o)) LG.dead_read++; born(); }
+    Tracked(const Tracked &o) : v(o.v)
+    {
+        if (THROW_NEXT_COPY) { THROW_NEXT_COPY = false; throw 1; }
+        if (!LG.live.count(&o)) LG.dead_read++;
+        born();
+    }
     Tracked &operator=(const Tracked &o)
     {
-        if (!LG.live.count(this)) LG.err("assignment to an object that is not alive");
+        if (!LG.live.count(this)) { LG.dead_assign++; LG.err("assignment to an object that is not alive"); }
         if (!LG.live.count(&o)) LG.dead_read++;
         v = o.v;
         return *this;
@@ -143,9 +150,17 @@ void run_lifeprobe(const std::vector<std::string> &w, out &o)
 // "constructed-over-live  destructor-on-dead  read-of-dead" (compared with the
 // slot-lifetime model of the Lean side); the oracle judges what C03 states: the
 // values come out FIFO for this non-trivial T too.
+// Round 3b: `x` = a push whose copy constructor throws (caught here; repaired 6d59c1e: the slot gets a T() back;
+// the oracle also judges the strong guarantee: head / tail / avail / stored elements unchanged),
+// `e` = `emplace(head_place())` (the argument aliases the slot: emplace has no aliasing test) - it leaves an
+// event the lifetime clause forbids (finding C03-emplace-alias-head-slot): in a `lifecount` line it is an `@F:`
+// probe; `lifeviol <n> <script>` is the same run whose oracle judges the VALUE clauses only while the
+// counters are compared with the model.
 void run_lifecount(const std::vector<std::string> &w, out &o)
 {
+    const bool strict = w[0] == "lifecount";
     LG = Ledger();
+    THROW_NEXT_COPY = false;
     size_t n = strtoul(w[1].c_str(), 0, 10);
     const std::string sc = w[2] == "-" ? "" : w[2];
     std::deque<int> q;
@@ -165,14 +180,30 @@ void run_lifecount(const std::vector<std::string> &w, out &o)
                 if (r->tail().v != q.front()) o.fail("tail() is " + S(r->tail().v) + ", the oldest pushed is " + S(q.front()));
                 r->pop(); q.pop_front();
             }
-            else if (ch == 'U' || ch == 'O' || ch == 'a')
+            else if (ch == 'x' || ch == 'X')
+            { // exception safety: T(obj) throws after place->~T() has run
+                unsigned h0 = r->head_index(), t0 = r->tail_index(), a0 = r->avail();
+                THROW_NEXT_COPY = true;
+                bool thrown = false;
+                try { if (ch == 'x') r->push(Tracked(k)); else { Tracked t(k); r->emplace(t); } } catch (int) { thrown = true; } // X: emplace has its own handler
+                THROW_NEXT_COPY = false;
+                if (!thrown) o.fail("push did not propagate the exception of the copy constructor");
+                if ((unsigned)r->head_index() != h0 || (unsigned)r->tail_index() != t0 || r->avail() != a0)
+                    o.fail("a push that threw changed head / tail / avail");
+                size_t i = t0;
+                for (size_t j = 0; j < q.size(); j++, i = (i + 1) % r->size())
+                    if (r->get((int)i).v != q[j]) { o.fail("a push that threw changed stored element " + S(j)); break; }
+                o.tag("throwing-copy");
+            }
+            else if (ch == 'U' || ch == 'O' || ch == 'a' || ch == 'e')
             { // outside the FIFO contract (push although full, pop although empty) or aliasing push:
               // the lifetime clauses still apply; the reference queue is re-read from the ring
                 if (ch == 'U') { r->push(Tracked(k)); k++; }
                 else if (ch == 'O') r->pop();
+                else if (ch == 'e') { r->emplace(r->head_place()); o.tag("emplace-alias"); }
                 else r->push(r->head_place());
                 q.clear();
-                for (unsigned i = r->r.tail; i != r->r.head; i = (i + 1) % r->r.size) q.push_back(r->buffer[i].v);
+                for (unsigned i = acc::rtail(*r); i != acc::rhead(*r); i = (i + 1) % acc::rsize(*r)) q.push_back(acc::slot(*r, i).v);
             }
             else if (ch == 'c') { r->clear(); q.clear(); }
             else if (ch == 'z') { r->resize(n); q.clear(); }
@@ -195,12 +226,15 @@ void run_lifecount(const std::vector<std::string> &w, out &o)
     }
     if (LG.allocs != 0) o.fail(S(LG.allocs) + " allocations never released");
     // the lifetime clause (repaired in round 3): every constructed element is destroyed exactly once
-    if (LG.over_live) o.fail(S(LG.over_live) + " objects constructed over a living object (never destroyed)");
-    if (LG.dead_dtor) o.fail(S(LG.dead_dtor) + " destructor calls on a slot without a living object");
-    if (LG.dead_read) o.fail(S(LG.dead_read) + " copies from a slot without a living object");
+    if (strict && LG.over_live) o.fail(S(LG.over_live) + " objects constructed over a living object (never destroyed)");
+    if (strict && LG.dead_dtor) o.fail(S(LG.dead_dtor) + " destructor calls on a slot without a living object");
+    if (strict && LG.dead_read) o.fail(S(LG.dead_read) + " copies from a slot without a living object");
     if (!LG.live.empty()) o.fail(S(LG.live.size()) + " objects never destroyed");
-    if (LG.ctor != LG.dtor) o.fail(S(LG.ctor) + " constructor calls on ring slots, " + S(LG.dtor) + " destructor calls");
-    o.result = S(LG.over_live) + " " + S(LG.dead_dtor) + " " + S(LG.dead_read) + " " + S(LG.ctor) + " " + S(LG.dtor);
+    if (strict && LG.ctor != LG.dtor) o.fail(S(LG.ctor) + " constructor calls on ring slots, " + S(LG.dtor) + " destructor calls");
+    // (round 3b correction: HOW MANY constructor / destructor calls an operation makes is not fixed by anything the
+    // property or the lifetime clause states - pop may assign T() instead of destroy + construct -; compared is
+    // the balance constructor calls - destructor calls, which must be 0)
+    o.result = S(LG.over_live) + " " + S(LG.dead_dtor) + " " + S(LG.dead_read) + " " + S(LG.ctor - LG.dtor);
     if (LG.over_live) o.tag("over-live");
     if (LG.dead_dtor) o.tag("dead-dtor");
     if (LG.dead_read) o.tag("dead-read");
@@ -209,3 +243,66 @@ void run_lifecount(const std::vector<std::string> &w, out &o)
     o.tag("lifetime");
 }
 
+
+// `arr <n> <script>` (round 3b): igris::unbounded_array<Tracked>(n) under the members the containers do not
+// use.  Tokens: fV fill(V) | c clear() | s self-assignment | gM assignment from an array {1..M} | zM resize(M) |
+// b begin()/end().  Result = "<size>:<elements>" after every token, then the ledger after the array has
+// been destroyed: constructor / destructor calls on array slots, destructor calls on / assignments to a
+// slot without a living object.  Oracle = a std::vector<int> mirror.
+void run_arr(const std::vector<std::string> &w, out &o)
+{
+    LG = Ledger();
+    THROW_NEXT_COPY = false;
+    size_t n = strtoul(w[1].c_str(), 0, 10);
+    std::vector<int> m(n, 0);
+    std::string res;
+    {
+        TArr x(n);
+        std::string tok;
+        std::stringstream ss(w[2]);
+        size_t step = 0;
+        while (std::getline(ss, tok, ','))
+        {
+            ++step;
+            long a = tok.size() > 1 ? strtol(tok.c_str() + 1, 0, 10) : 0;
+            if (tok[0] == 'f') { x.fill(Tracked((int)a)); m.assign(m.size(), (int)a); }
+            else if (tok == "c") { x.clear(); m.clear(); if (x.data() != nullptr) o.fail("clear: data() not null"); }
+            else if (tok == "s") { TArr &y = x; x = y; o.tag("self-assign"); }
+            else if (tok[0] == 'g')
+            {
+                TArr y((size_t)a);
+                for (long i = 0; i < a; i++) y[(size_t)i] = Tracked((int)i + 1);
+                x = y;
+                m.resize((size_t)a);
+                for (long i = 0; i < a; i++) m[(size_t)i] = (int)i + 1;
+                if (a && x.data() == y.data()) o.fail("assignment shares the storage");
+            }
+            else if (tok[0] == 'z') { x.resize((size_t)a); m.assign((size_t)a, 0); }
+            else if (tok == "b") {}
+            else { o.result = "bad-op"; return; }
+            const TArr &cx = x;
+            if (x.size() != m.size()) o.fail("step " + S(step) + " (" + tok + "): size() " + S(x.size()) + ", reference " + S(m.size()));
+            if ((size_t)(x.end() - x.begin()) != m.size() || (size_t)(cx.end() - cx.begin()) != m.size() || x.begin() != x.data() || cx.begin() != cx.data())
+                o.fail("step " + S(step) + " (" + tok + "): begin()/end() do not span the elements");
+            std::string st = S(x.size()) + ":";
+            size_t i = 0;
+            for (auto it = x.begin(); it != x.end() && i < m.size(); ++it, ++i)
+            {
+                if (it->v != m[i] || cx[i].v != m[i]) { o.fail("step " + S(step) + " (" + tok + "): element " + S(i) + " is " + S(it->v) + ", reference " + S(m[i])); }
+                st += (i ? "," : "") + S(it->v);
+            }
+            if (m.empty()) st += "-";
+            res += (res.empty() ? "" : ";") + st;
+        }
+    }
+    if (LG.allocs != 0) o.fail(S(LG.allocs) + " allocations never released");
+    if (!LG.live.empty()) o.fail(S(LG.live.size()) + " objects never destroyed");
+    if (LG.over_live) o.fail(S(LG.over_live) + " objects constructed over a living object");
+    if (LG.dead_dtor) o.fail(S(LG.dead_dtor) + " destructor calls on a slot without a living object");
+    if (LG.dead_assign) o.fail(S(LG.dead_assign) + " assignments to a slot without a living object");
+    if (LG.ctor != LG.dtor) o.fail(S(LG.ctor) + " constructor calls on array slots, " + S(LG.dtor) + " destructor calls");
+    o.result = res + " | " + S(LG.ctor - LG.dtor) + " " + S(LG.dead_dtor) + " " + S(LG.dead_assign);
+    for (void *p : LG.blocks) free(p);
+    LG = Ledger();
+    o.tag("uarray");
+}
